@@ -21,9 +21,6 @@ open TF.Gen TF.Merkle
 
 variable {D : Type} [DecidableEq D] (H : D → D → D)
 
-/-- a small non-injective "hash" on `Nat` for the non-vacuity examples -/
-def Hx (a b : Nat) : Nat := (3 * a + 5 * b + 1) % 1000003
-
 /-- **totality**: for every proof — any height, any indices, any multiset/order of claims, any length and content of the
     authentication structure — and every root, `verify` returns a verdict; no panic, i.e. no arithmetic overflow, no
     out-of-bounds access -/
@@ -53,6 +50,33 @@ example : verify Hx ⟨2, [(0, 1), (2, 3), (0, 1)], [4, 2]⟩ 193 = .ok true := 
 example : verify Hx ⟨2, [(0, 1), (2, 3)], [4, 2, 2]⟩ 193 = .ok false := by decide +kernel      -- surplus node
 example : verify Hx ⟨2, [(0, 1), (2, 3), (0, 2)], [4, 2]⟩ 193 = .ok false := by decide +kernel -- conflicting repetition
 example : verify Hx ⟨32, [], []⟩ 193 = .ok true := by decide +kernel                           -- trivial proof
+
+/-- **malformed proofs are rejected** (corollary of exactness): a non-trivial proof with a height above
+    `MAX_TREE_HEIGHT`, an index outside `[0, 2^height)`, a repeated index with conflicting digests, or an authentication
+    structure with a surplus or a missing node is rejected against every root -/
+theorem verify_rejects_malformed (p : Proof D) (root : D) (hnt : p.isTrivial = false)
+    (hbad : MAX_TREE_HEIGHT < p.height ∨ (∃ x ∈ p.leafs, 2^p.height ≤ x.1) ∨
+      (∃ x ∈ p.leafs, ∃ y ∈ p.leafs, x.1 = y.1 ∧ x.2 ≠ y.2) ∨
+      p.auth.length ≠ (Spec.needed p.height (p.leafs.map (·.1))).length) :
+    verify H p root = .ok false := by
+  rw [verify_eq_refVerify]
+  congr 1
+  unfold Spec.refVerify
+  rw [hnt]
+  cases hw : Spec.wellFormed p
+  · rfl
+  · exfalso
+    obtain ⟨h1, h2, h3, h4⟩ := (wellFormed_iff p).1 hw
+    rcases hbad with hb | ⟨x, hx, hb⟩ | ⟨x, hx, y, hy, e, ne⟩ | hb
+    · unfold MAX_TREE_HEIGHT at hb; omega
+    · have := h2 x hx; omega
+    · unfold Spec.consistent at h3
+      simp only [List.all_eq_true, Bool.or_eq_true, bne_iff_ne, ne_eq, decide_eq_true_eq] at h3
+      rcases h3 x hx y hy with h' | h'
+      · exact h' e
+      · exact ne h'
+    · exact hb h4
+example : (⟨32, [(0, 1)], []⟩ : Proof Nat).isTrivial = false ∧ MAX_TREE_HEIGHT < 32 := by decide
 
 /-- **soundness** (collision-extracting): if a non-trivial proof is accepted against the root of an honest tree of the
     stated height, then every claimed `(index, digest)` is the tree's leaf at that index — or an explicit collision of
